@@ -332,6 +332,15 @@ func init() {
 	ops["metrics.headenc"] = func(f Fields) string {
 		return canonPanic(guard(func() string { return "ok:" + hx(mHead(f).Encode()) }))
 	}
+	ops["metrics.headrt"] = func(f Fields) string {
+		return canonPanic(guard(func() string {
+			h, err := head.Read(bytes.NewReader(mHead(f).Encode()))
+			if err != nil {
+				return mErrClass(err)
+			}
+			return "ok:" + mShowHead(h)
+		}))
+	}
 	ops["metrics.headdec"] = func(f Fields) string {
 		return canonPanic(guard(func() string {
 			h, err := head.Read(bytes.NewReader(f.Hex("b")))
@@ -784,15 +793,27 @@ func areaMetrics(c *Ctx) {
 	zero := int64(-62135596800)
 	epoch := int64(-2082844800)
 	times := []int64{zero, epoch, epoch + 1, epoch - 1, 0, 1, -1, 1 << 31, 1<<31 - 1, 1 << 35, epoch + 1<<31, epoch + 1<<32, epoch + 1<<35,
-		zero + 1, zero - 1, 1 << 55, -(1 << 55), 253402300799}
+		zero + 1, zero - 1, 1 << 55, -(1 << 55), 253402300799, epoch - 86400*365*50, 1 << 56, -(1 << 56), 1 << 60,
+		-(1 << 60), 1 << 62, -(1 << 62), 1<<63 - 1, -(1 << 63), 1<<62 + 12345, -(1 << 62) - 12345}
 	pickTime := func() string {
 		var sec int64
-		if r.Chance(1, 2) {
-			sec = Pick(r, times)
-		} else if r.Chance(1, 2) {
+		switch r.Intn(10) {
+		case 0: // unset
+			sec = zero
+		case 1: // before 1904 (negative 1904-based value: top byte 0xFF)
+			sec = epoch - int64(r.Range(1, 1<<40))
+		case 2: // the epoch and its neighbours
+			sec = epoch + int64(r.Range(-1, 1))
+		case 3, 4: // ordinary
 			sec = int64(r.Range(0, 1<<32))
-		} else {
-			sec = int64(r.U64()>>8) - 1<<54
+		case 5: // far future / far past, magnitudes up to 2^62
+			sec = int64(r.U64()>>2) - 1<<61
+		case 6: // |1904-based value| >= 2^56: the top byte is in use
+			sec = Pick(r, []int64{1, -1}) * (int64(1)<<56 + int64(r.U64()>>10))
+		case 7: // extremes of int64
+			sec = Pick(r, []int64{1 << 62, -(1 << 62), 1<<63 - 1, -(1 << 63), 1<<62 + 12345, -(1 << 62) - 12345, 1<<62 - 1})
+		default:
+			sec = Pick(r, times)
 		}
 		nsec := 0
 		if r.Chance(1, 3) {
@@ -826,6 +847,36 @@ func areaMetrics(c *Ctx) {
 			r.Intn(2), r.Intn(2), r.Intn(2), r.Intn(2), r.Intn(2), Pick(r, []int{7, 0, 65535, r.Range(0, 65535)}),
 			Pick(r, []int{0, 1, -1, 2, -32768, 32767}))
 		out := c.Case(Verdict, "metrics.headenc", args, true)
+		// the property itself on the real code: Read(Encode(info)) = info (timestamps to the second);
+		// times beyond +-2^62 s are outside the stated domain: diagnostic only
+		inRange := true
+		for _, p := range strings.Fields(args) {
+			if strings.HasPrefix(p, "created=") || strings.HasPrefix(p, "modified=") {
+				var sec int64
+				fmt.Sscanf(p[strings.IndexByte(p, '=')+1:], "%d:", &sec)
+				if sec > 1<<62 || sec < -(1<<62) {
+					inRange = false
+				}
+				switch {
+				case sec == zero:
+					c.Stat("head_time_class", "unset")
+				case sec < epoch:
+					c.Stat("head_time_class", "before 1904")
+				case sec <= epoch+1:
+					c.Stat("head_time_class", "1904 epoch, +1s")
+				case sec < 1<<33:
+					c.Stat("head_time_class", "ordinary")
+				default:
+					c.Stat("head_time_class", "far future")
+				}
+			}
+		}
+		if inRange {
+			c.Case(Direct, "metrics.headrt", args, true)
+		} else {
+			c.Stat("head_time_class", "outside +-2^62 s (diagnostic)")
+			c.Case(Diagnostic, "metrics.headrt", args, true)
+		}
 		if !strings.HasPrefix(out, "ok:") {
 			continue
 		}
@@ -927,6 +978,8 @@ func areaMetrics(c *Ctx) {
 	areaMetricsOs2(c)
 	// ---- metric queries over exact rationals, fractional CFF widths, makeHmtx (area_metrics_q.go) ----
 	areaMetricsQ(c)
+	// ---- earlier results are not disturbed by later calls (area_metrics_alias.go) ----
+	areaMetricsAlias(c)
 
 	// ---- whole fonts: derived fields inside (*sfnt.Font).Write output ----
 	for i := 0; i < n/5+4; i++ {
